@@ -89,11 +89,11 @@ pub fn run_prompt(args: Vec<String>) {
                     }
                 };
 
-                let mut compiler = Compiler::new_with_state(symtab, constants);
+                // Compile with copies of the accumulated state so that a line
+                // rejected by the compiler leaves the earlier bindings untouched
+                let mut compiler = Compiler::new_with_state(symtab.clone(), constants.clone());
                 if let Err(e) = compiler.compile(program) {
                     eprintln!("{}", e);
-                    symtab = compiler.symtab;
-                    constants = compiler.constants;
                     continue;
                 }
                 let bytecode = compiler.bytecode();
